@@ -221,10 +221,24 @@ def export_cases(module, cfg=None, workers=1, heap='4g', timeout=1800, env=None,
     return cases, res
 
 
-def model_check(module, cfg=None, workers=16, heap='8g', timeout=3600, extra=(), env=None, tag=None):
-    """Exhaustive check of a bounded instance.  Returns the run_tlc dict plus ok / violated."""
-    res = run_tlc(module, cfg=cfg, workers=workers, heap=heap, timeout=timeout, extra=extra, env=env, tag=tag)
+_COV = re.compile(r'^<(\w+) line \d+, col \d+ to line \d+, col \d+ of module (\w+)(?: \([\d ]+\))?>: (\d+):(\d+)\s*$', re.M)
+
+
+def action_coverage(out):
+    """TLC's coverage statistics (last report of the run): {action: [distinct states found, states generated]}."""
+    acts = {}
+    for m in _COV.finditer(out):
+        acts[m.group(1)] = [int(m.group(3)), int(m.group(4))]
+    return acts
+
+
+def model_check(module, cfg=None, workers=16, heap='8g', timeout=3600, extra=(), env=None, tag=None, idle_ok=(), coverage=True):
+    """Exhaustive check of a bounded instance.  Returns the run_tlc dict plus ok / violated / actions.
+    Vacuity guard: TLC runs with -coverage; an action of the next-state relation that never generated a state means the
+    instance did not exercise it, and the run counts as a machinery failure unless the caller names it in *idle_ok*."""
+    res = run_tlc(module, cfg=cfg, workers=workers, heap=heap, timeout=timeout, extra=(('-coverage', '600') if coverage else ()) + tuple(extra), env=env, tag=tag)
     o = res['out']
+    res['actions'] = action_coverage(o)
     res['ok'] = 'Model checking completed. No error has been found.' in o
     m = re.search(r'Error: Invariant (\S+) is violated', o) or re.search(r'Error: Action property (\S+) is violated', o) \
         or re.search(r'Error: Temporal properties were violated', o)
@@ -235,6 +249,12 @@ def model_check(module, cfg=None, workers=16, heap='8g', timeout=3600, extra=(),
         with open(keep, 'w') as f:
             f.write(o)
         raise MachineryError(f'TLC failed model checking {module}: see {keep}\n' + o[-3000:])
+    if res['ok'] and coverage:
+        if not res['actions']:
+            raise MachineryError(f'TLC printed no coverage statistics for {module} ({cfg})')
+        idle = sorted(a for a, (d, g) in res['actions'].items() if g == 0 and a not in idle_ok)
+        if idle:
+            raise MachineryError(f'vacuous instance {module} ({cfg}): action(s) never taken: {", ".join(idle)}')
     return res
 
 
